@@ -1166,7 +1166,7 @@ impl Part for Histories {
         "histories"
     }
     fn cases(&self, tier: Tier) -> u32 {
-        tier.pick(8000, 200_000)
+        tier.pick(30_000, 500_000)
     }
     fn strategy(&self, _: Tier) -> BoxedStrategy<HCase> {
         (vars_strategy(false), proptest::collection::vec(op_strategy(false), 10..=60)).prop_map(|(vars, ops)| HCase { vars, ops, target: 0 }).boxed()
@@ -1362,7 +1362,7 @@ impl Part for Interruption {
         "interruption"
     }
     fn cases(&self, tier: Tier) -> u32 {
-        tier.pick(2000, 40_000)
+        tier.pick(6000, 80_000)
     }
     fn strategy(&self, _: Tier) -> BoxedStrategy<HCase> {
         // budgets inside the generated operations are ignored here: only the target is budgeted
